@@ -131,8 +131,14 @@ let parse_arena (s : string) : arena_spec =
   | ["R"; cs] -> ArRaw (if cs = "" then [] else List.map z_of_dec (String.split_on_char ',' cs))
   | _ -> failwith ("bad arena " ^ s)
 
+let verdict_str v = match v with
+  | VOk -> "valid" | VBad w -> "invalid:" ^ dec_of_z w | VFuel -> "fuel"
+
 let () = iter_lines (fun line ->
   match split_ws line with
+  | ["V"; segs; fuel] ->
+    let m = parse_segs segs in
+    print_endline (verdict_str (valid_message m) ^ ";T" ^ tree_s (spec_root_tree m (z_of_dec fuel)))
   | arena :: t :: d :: st :: sd :: ncaps :: segs :: fuel :: rest ->
     let ops = match rest with o :: _ when String.length o < 7 || String.sub o 0 7 <> "expect=" -> o | _ -> "" in
     let cfgd = { cfg_T = z_of_dec t; cfg_D = z_of_dec d; cfg_strict = true; cfg_root = true } in
